@@ -272,7 +272,7 @@ def r073(chk, w):
 ERR_TYPES = ("VaporettoError", "io::Error", "std::io::Error", "EncodeError", "DecodeError", "TryFromIntError", "FromUtf8Error")
 
 
-def error_discipline(chk, w, rule, fns, floor, extra_ok=()):
+def error_discipline(chk, w, rule, fns, floor, extra_ok=(), err_types=None):
     """E7: every call returning Result<_, repo error> in `fns` must be propagated: on the Err refinement of
     its result the function returns Err; `unwrap/expect/ok/unwrap_or*/is_ok` on it, or dropping it, is reported."""
     n = 0
@@ -285,7 +285,7 @@ def error_discipline(chk, w, rule, fns, floor, extra_ok=()):
         for bb, t in cfgmod.calls(b):
             dl = t["dest"]
             ty = b.locals[dl["local"]]["ty"] if not dl["proj"] else ""
-            if ty.startswith("std::result::Result<") and any(x in ty for x in ERR_TYPES):
+            if ty.startswith("std::result::Result<") and any(x in ty for x in (err_types or ERR_TYPES)):
                 nm = cfgmod.callee(t) or ""
                 if nm.endswith("map_err") or nm.endswith("from_residual") or nm.endswith("::branch"):
                     continue
